@@ -268,13 +268,17 @@ impl TestModel {
 impl Model for TestModel {
     type Math<'m> = CpuMath<LogDensity>;
 
-    fn math<R: Rng + ?Sized>(&self, _rng: &mut R) -> Result<CpuMath<LogDensity>> {
+    fn math<R: Rng + ?Sized>(&self, rng: &mut R) -> Result<CpuMath<LogDensity>> {
         let k = self.math_calls.fetch_add(1, Ordering::SeqCst);
+        // the model consumes the generator it is given (like a model that draws data or initial values in math()): the
+        // density of this instance is shifted by a small random amount, so every recorded value depends on it
+        let shift: f64 = 1e-3 * (rng.random::<f64>() - 0.5);
         if self.faults.math_call == Some(k) {
             anyhow::bail!("injected model failure: math() call {k}");
         }
         let mut d = LogDensity::new((*self.spec).clone()).counting_only();
         d.spec = self.spec.clone();
+        d.x_shift = shift;
         self.logs.lock().unwrap().insert(k, d.log.clone());
         if let Some(f) = self.faults.density.get(&k) {
             d = d.with_faults(f.clone());
